@@ -170,6 +170,11 @@ def _run_case(case, rec, mon=None):
         except Exception as e:
             mon.v("copying (%s) a %s bank raised %r" % (way, cfg["name"], e), check="copy_raise", cfg=cfg)
             bank = None
+    if bank is not None and case["idx"] % 3 == 0:
+        from ..common import poke
+
+        poke(bank)
+        rec.count("banks_inspected_before_the_first_request")
     if bank is not None:
         mon.cfg_of[id(bank)] = cfg
         nf = bank.num_filts
